@@ -157,8 +157,26 @@ declarations:
   declarations:
   - decl: bool deltafour(bool flag)
 """
+# a struct Python sees as a class, with the debugging comments that print each function's index: what Python generates for
+# itself must not renumber the C and Fortran wrappers
+STRUCT_DEBUG = """\
+library: Sel
+language: c
+cxx_header: sel.h
+options:
+  debug: true
+  debug_index: true
+  PY_struct_arg: class
+  PY_array_arg: list
+declarations:
+- decl: int before(int a)
+- decl: struct Point { int x; double y; };
+- decl: double norm(const Point *p)
+- decl: void after(const char *name)
+"""
 DESCS = {
     "functions": FUNCS,
+    "structdebug": STRUCT_DEBUG,
     "chain": CHAIN,
     "overloads": OVERLOADS,
     "classes": libs.SMALL_CXX,
@@ -306,7 +324,7 @@ def run(ctx):
             opts = d.setdefault("options", {})
             for lang, on in zip(LANGS, c):
                 opts["wrap_" + lang] = on
-            if dname == "structs" and c[3]:
+            if dname in ("structs", "structdebug") and c[3]:
                 continue  # Lua wrapping of structs is not in the supported subset
             add(("lib", dname, c), d, {"out": "out", "cf": "cfdir", "py": "pydir", "lua": "luadir", "yaml": "yamldir"})
     # ---- (b) per-declaration overrides
